@@ -56,6 +56,14 @@ def depth_doc(k, n, quad_cap=3000):
         return r('<svg><var v0="1"/>' + "".join(f'<var v{i + 1}="$v{i}"/>' for i in range(m)) + f'<rect wh="1" data-v="$v{m}"/></svg>')
     if k == "var-self":
         return r('<svg><var a="$b"/><var b="$a"/>' + '<rect wh="{{$a + 1}}"/>' * min(n, 20) + "</svg>")
+    if k == "var-rho":
+        # a chain of variables leading INTO a cycle it is not part of (defined so that nothing is
+        # substituted early), read from an expression and from a condition
+        t = min(n, 300)
+        cyc = 1 + n % 3
+        tail = "".join(f'<var t{i}="$t{i + 1}"/>' for i in range(t)) + f'<var t{t}="$y0"/>'
+        loop = "".join(f'<var y{j}="$y{(j + 1) % cyc}"/>' for j in range(cyc))
+        return r("<svg>" + tail + loop + '<rect xy="0" wh="{{$t0 + 1}}"/><if test="$t0"><rect wh="1"/></if></svg>')
     if k == "var-growth":
         return r('<svg><var s="xx"/><loop count="%d"><var s="$s$s"/></loop><rect wh="1"/></svg>' % min(n, 1000))
     if k == "path-length":
